@@ -113,6 +113,7 @@ func classifyCond(p *Program, cond ssa.Value, val bool) string {
 					return "prefix(" + constant.StringVal(k.Value) + ")=" + tv(val)
 				}
 			}
+			return shortCallee(cc) + "=" + tv(val)
 		}
 		if cc.IsInvoke() {
 			return cc.Method.Name() + "=" + tv(val)
